@@ -2079,9 +2079,18 @@ class NuclearNorm(Functional):
                     snorm = np.maximum(self.sigma, snorm, out=snorm)
                     sprox = ((1 - eps) - self.sigma / snorm)[..., None] * s
                 elif func.pwisenorm.exponent == np.inf:
-                    snorm = np.sum(np.abs(s), axis=-1)
-                    snorm = np.maximum(self.sigma, snorm, out=snorm)
-                    sprox = ((1 - eps) - self.sigma / snorm)[..., None] * s
+                    # Moreau: ``s`` minus its projection onto the l1-ball
+                    # of radius ``sigma``, i.e., ``s`` cut off at a level
+                    # ``tau``. The singular values are nonnegative and
+                    # sorted in descending order, hence ``tau`` is
+                    # ``(s_1 + ... + s_k - sigma) / k`` for the largest
+                    # ``k`` such that ``s_k`` exceeds that value.
+                    num = np.arange(1, s.shape[-1] + 1)
+                    levels = (np.cumsum(s, axis=-1) - self.sigma) / num
+                    k = np.sum(s > levels, axis=-1, keepdims=True)
+                    tau = np.take_along_axis(levels, k - 1, axis=-1)
+                    tau = np.maximum(tau, 0) * (1 + eps)
+                    sprox = np.minimum(s, tau)
                 else:
                     raise RuntimeError
 
